@@ -18,6 +18,8 @@ LANE = None
 if "--lane-worker" in args:  # internal: --lane-worker <verifdir> <repodir>
     i = args.index("--lane-worker"); LANE = (args[i + 1], args[i + 2]); del args[i:i + 3]
 VERIF, REPO = LANE if LANE else ("/verif", "/repo")
+# with VERIF_SEED set the outcome is kept beside the default-seed record, as final_run_seed<N>
+KEY = "final_run" + ("_seed" + os.environ["VERIF_SEED"] if os.environ.get("VERIF_SEED") else "")
 names = args or sorted(d for d in os.listdir("/verif/seeded") if os.path.isdir("/verif/seeded/" + d))
 
 def sh(c, cwd=None):
@@ -39,7 +41,7 @@ def worker(names):
         rc, out = sh("git -C %s diff --quiet && (git -C %s apply %s/patch.diff 2>/dev/null || git -C %s apply --3way %s/patch.diff)" % (REPO, REPO, d, REPO, d))
         if rc != 0:
             restore()
-            print(name, "DOES NOT APPLY to", head, flush=True); meta["final_run"] = {"repo_head": head, "applies": False}
+            print(name, "DOES NOT APPLY to", head, flush=True); meta[KEY] = {"repo_head": head, "applies": False}
             json.dump(meta, open(d + "/meta.json", "w"), indent=1); continue
         caught, runs = [], {}
         try:
@@ -52,7 +54,7 @@ def worker(names):
                     caught.append(c)
         finally:
             restore()
-        meta["final_run"] = {"repo_head": head, "applies": True, "runs": runs, "caught_by": caught}
+        meta[KEY] = {"repo_head": head, "applies": True, "runs": runs, "caught_by": caught}
         json.dump(meta, open(d + "/meta.json", "w"), indent=1)
         print(name, "caught by", caught if caught else "NOTHING", flush=True)
         if not caught:
@@ -87,9 +89,9 @@ for i, base, mine, p in procs:
             lm = json.load(open("%s/verif/seeded/%s/meta.json" % (base, name)))
         except Exception as ex:
             print(name, "lane result unreadable:", ex); continue
-        if "final_run" in lm:
+        if KEY in lm:
             path = "/verif/seeded/%s/meta.json" % name
-            m = json.load(open(path)); m["final_run"] = lm["final_run"]
+            m = json.load(open(path)); m[KEY] = lm[KEY]
             json.dump(m, open(path, "w"), indent=1)
     sh("git -C /repo worktree remove --force %s/repo; rm -rf %s" % (base, base), "/")
 sh("git -C /repo worktree prune", "/")
